@@ -8,10 +8,13 @@ import glob, json, os, re, shutil, subprocess, sys, time, hashlib
 
 ROOT = os.path.dirname(os.path.dirname(os.path.abspath(__file__)))
 REPO = os.environ.get("VERIF_REPO", "/repo")
-WORK = os.path.join(ROOT, ".work")
+# a run against a scratch tree (VERIF_REPO=<worktree>, used to try the checks on seeded changes) keeps its
+# binaries, cases, replays and evidence apart from those of /repo
+ALT = os.path.realpath(REPO) != "/repo"
+WORK = os.path.join(ROOT, ".work-alt-" + re.sub(r"[^A-Za-z0-9]+", "_", os.path.realpath(REPO)).strip("_") if ALT else ".work")
 COQ = os.path.join(ROOT, "coq")
 OVERLAY_SRC = os.path.join(ROOT, "harness", "overlay")
-EVID = os.path.join(ROOT, "evidence")
+EVID = os.path.join(WORK, "evidence") if ALT else os.path.join(ROOT, "evidence")
 REPLAYS = os.path.join(WORK, "replays")
 KNOWN = os.path.join(ROOT, "KNOWN_FINDINGS.jsonl")
 FAKEBIN = os.path.join(WORK, "fakebin")
